@@ -101,7 +101,7 @@ Definition run_case (c : sexp) : sexp :=
         | _ => bad
         end
       else bad
-  | L [t; A pre; A e; A d; A post; _] =>
+  | L [t; A pre; A e; A d; A post; _; _] =>
       if is_sym "damage" t then
         let r x := [enc_parse_result (parse x); enc_parse_result (parse_runtime x)] in
         L (sym "ok" :: r (pre ++ e ++ post) ++ r (pre ++ d ++ post) ++ r pre ++ r post)
